@@ -80,8 +80,13 @@ func runC01(c *core.Ctx) {
 	c.Rule("C01.episode", "A1: triggered stores lastTriggered on every path and firstTriggered exactly under a `== OK` test of a history element")
 	c.Rule("C01.fanout", "A1/A3: handleEvent: inhibited ⇒ no Collect; otherwise Collect once per configured topic kind, each with event.Topic set to that topic just before; a Collect error does not prevent the other Collect")
 
+	c.Rule("C01.pools", "A7: in newAlertNode, for every level index the scope pool stored next to a compiled expression is built from the reference variables of that same expression (levels↔scopePools, levelResets↔lrScopePools): a pool built from another expression leaves variables undefined and silently disables the condition")
+	c.Rule("C01.flap", "A1: updateFlapping leaves the flapping state only below the low threshold and enters it only above the high threshold (documented hysteresis); no other store to flapping")
+
 	pkg := c.P.Pkg("")
 	info := pkg.TypesInfo
+	c01Pools(c, info)
+	c01Flap(c, info)
 
 	// ---- C01.emit / C01.carry on Point and BufferedBatch
 	track := func(call *ast.CallExpr, callee *types.Func) string {
@@ -734,4 +739,190 @@ func fieldWriters(info *types.Info, funcs []*core.Func, typ string) map[string][
 		})
 	}
 	return out
+}
+
+// c01Pools: expression/scope-pool pairing in newAlertNode.
+func c01Pools(c *core.Ctx, info *types.Info) {
+	fn := c.Need("C01.pools", "", "", "newAlertNode")
+	if fn == nil {
+		return
+	}
+	slotOf := func(lhs ast.Expr) (string, ast.Expr) {
+		ix, ok := ast.Unparen(lhs).(*ast.IndexExpr)
+		if !ok {
+			return "", nil
+		}
+		for _, f := range []string{"levels", "scopePools", "levelResets", "lrScopePools"} {
+			if an.FieldSel(info, ix.X, "AlertNode", f) {
+				return f, ix.Index
+			}
+		}
+		return "", nil
+	}
+	// flow-insensitive within nested blocks: a local is resolved to the call that defined it in an enclosing block
+	type store struct {
+		name, idx, val string
+		pos            token.Pos
+	}
+	var stores []store
+	var walk func(list []ast.Stmt, env map[types.Object]string)
+	walk = func(list []ast.Stmt, env map[types.Object]string) {
+		local := map[types.Object]string{}
+		for k, v := range env {
+			local[k] = v
+		}
+		for _, st := range list {
+			switch x := st.(type) {
+			case *ast.AssignStmt:
+				if len(x.Rhs) == 1 {
+					if call, ok := ast.Unparen(x.Rhs[0]).(*ast.CallExpr); ok {
+						if id, ok := x.Lhs[0].(*ast.Ident); ok {
+							obj := info.Defs[id]
+							if obj == nil {
+								obj = info.Uses[id]
+							}
+							if obj != nil {
+								local[obj] = types.ExprString(call)
+							}
+						}
+					}
+				}
+				for i, l := range x.Lhs {
+					f, idx := slotOf(l)
+					if f == "" || i >= len(x.Rhs) {
+						continue
+					}
+					val := types.ExprString(x.Rhs[i])
+					if id, ok := ast.Unparen(x.Rhs[i]).(*ast.Ident); ok {
+						if v, ok := local[info.Uses[id]]; ok {
+							val = v
+						}
+					}
+					stores = append(stores, store{f, types.ExprString(idx), val, x.Pos()})
+				}
+			case *ast.IfStmt:
+				if x.Init != nil {
+					walk([]ast.Stmt{x.Init}, local)
+				}
+				walk(x.Body.List, local)
+				if x.Else != nil {
+					walk([]ast.Stmt{x.Else}, local)
+				}
+			case *ast.BlockStmt:
+				walk(x.List, local)
+			case *ast.ForStmt:
+				walk(x.Body.List, local)
+			case *ast.RangeStmt:
+				walk(x.Body.List, local)
+			}
+		}
+	}
+	walk(fn.Decl.Body.List, map[types.Object]string{})
+	inner := func(v, head string) string {
+		i := strings.Index(v, head)
+		if i < 0 {
+			return ""
+		}
+		r := v[i+len(head):]
+		// up to the matching parenthesis
+		depth := 1
+		for j, ch := range r {
+			switch ch {
+			case '(':
+				depth++
+			case ')':
+				depth--
+				if depth == 0 {
+					return r[:j]
+				}
+			}
+		}
+		return ""
+	}
+	type slot struct {
+		expr, pool string
+		pos        token.Pos
+	}
+	n := 0
+	pairs := map[string]*slot{}
+	for _, e := range stores {
+		fam := "level"
+		if e.name == "levelResets" || e.name == "lrScopePools" {
+			fam = "reset"
+		}
+		k := fam + "[" + e.idx + "]"
+		if pairs[k] == nil {
+			pairs[k] = &slot{}
+		}
+		switch e.name {
+		case "levels", "levelResets":
+			pairs[k].expr = inner(e.val, "stateful.NewExpression(")
+		default:
+			pairs[k].pool = inner(e.val, "ast.FindReferenceVariables(")
+		}
+		pairs[k].pos = e.pos
+	}
+	for _, k := range an.SortedKeys(pairs) {
+		s := pairs[k]
+		if s.expr == "" || s.pool == "" {
+			c.Fail("C01.pools", "newAlertNode#"+k, s.pos, "expression and scope pool are not both stored for this level (expression from %q, pool from %q)", s.expr, s.pool)
+			continue
+		}
+		n++
+		c.Check(s.expr == s.pool, "C01.pools", "newAlertNode#"+k, s.pos, "the scope pool is built from the reference variables of %s but the expression evaluated with it is compiled from %s", s.pool, s.expr)
+	}
+	c.Floor("C01.pools", "expression/pool pairs", n, 6)
+}
+
+func c01Flap(c *core.Ctx, info *types.Info) {
+	fn := c.Need("C01.flap", "", "alertState", "updateFlapping")
+	if fn == nil {
+		return
+	}
+	eng := &an.Engine{Prog: c.P,
+		TrackStore: func(lhs ast.Expr, key string) string {
+			if an.FieldSel(info, lhs, "alertState", "flapping") {
+				return "flapping"
+			}
+			return ""
+		},
+		Classify: func(a an.Atom) (string, bool) {
+			switch {
+			case an.FieldSel(info, a.Expr, "alertState", "flapping"):
+				return "flap", false
+			case an.FieldSel(info, a.Expr, "AlertNodeData", "UseFlapping"):
+				return "use", false
+			case a.Op == token.LSS && strings.HasSuffix(a.L, ".percentChange()") && strings.HasSuffix(a.R, ".FlapLow"):
+				return "belowLow", false
+			case a.Op == token.LSS && strings.HasSuffix(a.R, ".percentChange()") && strings.HasSuffix(a.L, ".FlapHigh"):
+				return "aboveHigh", false
+			}
+			return "", false
+		}}
+	paths, err := eng.Run(fn)
+	if err != nil {
+		c.Undecided("C01.flap", "alertState.updateFlapping", fn.Decl.Pos(), "%v", err)
+		return
+	}
+	an.CheckTable(c, "C01.flap", "alertState.updateFlapping", paths, an.Table{Atoms: []string{"use", "flap", "belowLow", "aboveHigh"},
+		Outcome: func(p *an.Path) string {
+			var s []string
+			for _, e := range p.Events {
+				if e.Kind == "store" {
+					s = append(s, "flapping="+e.Args[0])
+				}
+			}
+			return strings.Join(s, ",")
+		},
+		Expect: func(a map[string]bool) string {
+			switch {
+			case !a["use"]:
+				return ""
+			case a["flap"] && a["belowLow"]:
+				return "flapping=false"
+			case !a["flap"] && a["aboveHigh"]:
+				return "flapping=true"
+			}
+			return ""
+		}})
 }
